@@ -128,11 +128,11 @@ Theorem C20_fd_double_close_refuted :
   fd_late fd_fresh [FPipeClosed; FEof] = 1%nat.
 Proof. exact fd_double_close_refuted_thm. Qed.
 
-(* after a protocol error the fd is closed ZERO times unless a later EOF / failed completion arrives *)
-Theorem C20_fd_peer_error_never_closed_refuted : forall es,
-  no_unguarded es = true -> fd_delayed es = false ->
-  f_close_sqes (fd_run fd_fresh (FPeerErr :: es)) = 0%nat /\ f_present (fd_run fd_fresh (FPeerErr :: es)) = true.
-Proof. exact fd_peer_error_never_closed_refuted_thm. Qed.
+(* a protocol / security error on a live handler submits exactly one Close *)
+Theorem C20_fd_peer_error_closes : forall s,
+  f_present s = true -> f_closing s = false ->
+  f_close_sqes (fd_step s FPeerErr) = S (f_close_sqes s) /\ f_closing (fd_step s FPeerErr) = true.
+Proof. exact fd_peer_error_closes_thm. Qed.
 
 (* ---------- the two shells ---------- *)
 
@@ -147,7 +147,9 @@ Theorem C20_backend_equiv : forall cfg t is,
   let o := snd (e_net cfg (e_new t) (bytes_of is) 0) in
   l_pipe l ++ s_q (u_sp h) = t_ingress k /\ t_ingress k = deliveries o /\
   l_ctrl l = t_ctrl k /\ t_ctrl k = ctrls o /\
-  s_closing (u_sp h) = t_fatal k.
+  (* the session alive: same engine, handler not closing; the session gave up: handler closing or its engine Closed *)
+  (if t_fatal k then s_closing (u_sp h) = true \/ e_phase (g_st (u_eng h)) = PClosed
+   else u_eng h = t_eng k /\ s_closing (u_sp h) = false).
 Proof. exact backend_equiv_thm. Qed.
 
 (* heartbeat ticks do not separate the backends when HEARTBEAT_IVL is off *)
@@ -155,7 +157,9 @@ Theorem C20_backend_equiv_ticks : forall cfg t is,
   c_hb_ivl cfg = None -> forallb uin_plain_tick is = true ->
   let '(h, l) := u_run cfg (u_new t) is in
   let k := t_run cfg (t_new t) (peer_of is) in
-  l_pipe l ++ s_q (u_sp h) = t_ingress k /\ l_ctrl l = t_ctrl k /\ s_closing (u_sp h) = t_fatal k.
+  l_pipe l ++ s_q (u_sp h) = t_ingress k /\ l_ctrl l = t_ctrl k /\
+  (if t_fatal k then s_closing (u_sp h) = true \/ e_phase (g_st (u_eng h)) = PClosed
+   else u_eng h = t_eng k /\ s_closing (u_sp h) = false).
 Proof. exact backend_equiv_ticks_thm. Qed.
 
 (* NOT equivalent: HEARTBEAT_IVL / HEARTBEAT_TIMEOUT (the handler never calls on_tick) *)
